@@ -49,6 +49,10 @@ type GenConfig struct {
 	// (the shapes for which generated version conversions have dedicated code paths).
 	EvoShapesPct int
 
+	// TwiceGenericPct: chance (percent) that the first protocol uses one generic record with two different
+	// named types as argument (`Box<A>` in one step, `Box<B>` in another), B being used nowhere else.
+	TwiceGenericPct int
+
 	// BulkStreamPct: chance (percent) that the first protocol gets a trailing stream of records holding
 	// fixed-width bulk data (arrays and vectors of floats, complex numbers, bytes).
 	BulkStreamPct int
@@ -60,7 +64,7 @@ type GenConfig struct {
 
 func DefaultGen() GenConfig {
 	return GenConfig{MaxDefs: 8, MaxImports: 2, MaxProtocols: 2, MaxSteps: 6, MaxDepth: 3, MaxFiles: 3,
-		Generics: true, Computed: true, Comments: true, SharedNamesPct: 25, AliasKeyPct: 15, Excl: map[string]bool{}, ExclCount: map[string]int{}}
+		Generics: true, Computed: true, Comments: true, SharedNamesPct: 25, AliasKeyPct: 15, TwiceGenericPct: 12, Excl: map[string]bool{}, ExclCount: map[string]int{}}
 }
 
 func (c *GenConfig) excluded(f string) bool {
@@ -1030,10 +1034,65 @@ func GenPackage(t *rapid.T, cfg *GenConfig) *Package {
 	if cfg.BulkStreamPct > 0 && g.chance("bulkStream", cfg.BulkStreamPct) {
 		addBulkStream(root)
 	}
+	if cfg.TwiceGenericPct > 0 && g.chance("twiceGeneric", cfg.TwiceGenericPct) {
+		addTwiceInstantiated(root, g.chance("twiceFreshArgs", 70))
+	}
 	if cfg.Excl["union-tags-by-variant-type"] {
 		alignUnionTags(root, cfg)
 	}
 	return root
+}
+
+// addTwiceInstantiated: two steps of the first protocol instantiate the same generic record with two
+// different named types; with freshArgs the second argument type is referenced nowhere else, so it reaches
+// the protocol (its schema, its dependency order) only through the second instantiation.
+func addTwiceInstantiated(root *Package, freshArgs bool) {
+	var proto *Def
+	for _, d := range root.Defs {
+		if d.Kind == DProtocol {
+			proto = d
+			break
+		}
+	}
+	if proto == nil || root.Find("TwiceBox") != nil || root.Find("TwiceArgA") != nil || root.Find("TwiceArgB") != nil {
+		return
+	}
+	for _, f := range proto.Fields {
+		if f.Name == "twiceFirst" || f.Name == "twiceSecond" {
+			return
+		}
+	}
+	box := &Def{Kind: DRecord, Name: "TwiceBox", TypeParams: []string{"T"}, Fields: []Field{{Name: "item", Type: Param("T")}, {Name: "weight", Type: Prim("uint16")}}}
+	argA := &Def{Kind: DRecord, Name: "TwiceArgA", Fields: []Field{{Name: "level", Type: Prim("int32")}, {Name: "name", Type: Prim("string")}}}
+	argB := &Def{Kind: DRecord, Name: "TwiceArgB", Fields: []Field{{Name: "gain", Type: Prim("float32")}, {Name: "count", Type: Prim("uint32")}}}
+	news := []*Def{box, argA, argB}
+	a, b := Ref(root.Namespace, "TwiceArgA"), Ref(root.Namespace, "TwiceArgB")
+	if !freshArgs {
+		// reuse existing named types of the package as arguments where there are two
+		var named []*Def
+		for _, d := range root.Defs {
+			if (d.Kind == DRecord || d.Kind == DEnum) && len(d.TypeParams) == 0 {
+				named = append(named, d)
+			}
+		}
+		if len(named) >= 2 {
+			a, b = Ref(root.Namespace, named[0].Name), Ref(root.Namespace, named[len(named)-1].Name)
+			news = []*Def{box}
+		}
+	}
+	var defs []*Def
+	inserted := false
+	for _, d := range root.Defs {
+		if d.Kind == DProtocol && !inserted {
+			defs = append(defs, news...)
+			inserted = true
+		}
+		defs = append(defs, d)
+	}
+	root.Defs = defs
+	proto.Fields = append(proto.Fields,
+		Field{Name: "twiceFirst", Type: Ref(root.Namespace, "TwiceBox", a)},
+		Field{Name: "twiceSecond", Type: Stream(Ref(root.Namespace, "TwiceBox", b))})
 }
 
 // addBulkStream gives the first protocol a trailing stream step whose items are records made of
